@@ -18,6 +18,10 @@ var ruleExtend = &core.Rule{ID: "R14.1", Min: 6,
 		m := getWalk(c)
 		cm := getConc(c)
 		f := m.extendM
+		if f == nil && m.extendWrong != nil {
+			s.Bad("children replaced on the receiver", c.Pos(m.extendWrong.Pos()), m.extendWrong.Parent().Name()+" stores into the children of a node other than its receiver: the new format is consulted under another parent than the one it was registered for and its results report ancestors that did not match")
+			return
+		}
 		if f == nil {
 			core.Bail("no method publishing a child outside initialisation found")
 		}
